@@ -6,7 +6,7 @@ import json
 from . import celx, evalx, hostfns
 from .core import Ctx, read_dump, pmap
 
-INV = "SPECIFICATION Spec\nINVARIANT MethodIsFunction\nINVARIANT Absorbed\nINVARIANT OverrideOnlyWhenSupplied\nCHECK_DEADLOCK FALSE\n"
+INV = "SPECIFICATION Spec\nINVARIANT MethodIsFunction\nINVARIANT Absorbed\nINVARIANT Strict\nINVARIANT OverrideOnlyWhenSupplied\nCHECK_DEADLOCK FALSE\n"
 CONFIGS = [(k, s) for k in ("module", "nested", "lambda", "object") for s in ("list", "dict")]
 
 
